@@ -167,7 +167,7 @@ func (b *NameBuilder) Reset() {
 func (b *NameBuilder) ParseReadable(s []byte) error {
 	b.Reset()
 
-	if s[len(s)-1] == '.' {
+	if len(s) > 0 && s[len(s)-1] == '.' {
 		s = s[:len(s)-1]
 	}
 
